@@ -12,19 +12,29 @@ THEOREMS = [
 ]
 COMPONENTS = ['hypotheses of the assembly theorems (well-formedness of asset problems) evaluated on every captured real asset problem', 'assemble (cost, mapping) on captured real asset problems', 'readout.dcf vs Asset.dcf / io.extract_output["DCF"]']
 RULE = ('random portfolios incl. periodic, coarse-frequency, scaled, structured assets and order books; mono and split; '
+        'every split solution is re-optimised as a split problem with whole intervals pinned to it through fix_time_window (a prefix = the past, a subset, or all; '
+        'window as mask, index array or date; prices of the other steps changed) and the accounting identity checked on that result too; '
+        'plus (one more case per 8) portfolios of assets pinned by min_cap == max_cap with non-zero prices (fixed-rate / fixed-profile contracts, multi-commodity '
+        'contracts, fixed-flow transports; balanced per node or not by a seed-drawn choice), alone or next to a flexible market contract active in part of the '
+        'horizon, optimised in one go and split into intervals some of which have no free variable but non-zero cash flows; '
         'non-trivial = solved scenario with >= 2 assets having non-zero cash flow; distinct by scenario hash')
 ASSUMPTIONS = ['oracle tolerance 1e-6 * max(1,|value|, sum|DCF|)']
-EXPLANATION = 'theorems about the model of Asset.dcf and the assembly; correspondence on captured problems; oracle: value vs DCF table vs -c_a.x_a with asset blocks taken from the sizes of the captured asset problems (independent of the mapping)'
+EXPLANATION = ('theorems about the model of Asset.dcf and the assembly; correspondence on captured problems; oracle: value vs DCF table vs -c_a.x_a with asset blocks taken from the sizes '
+               'of the captured asset problems (independent of the mapping), on the result of every way the problem is built and solved: one go, robust, split, split re-optimised '
+               'with pinned intervals (fix_time_window), reordered; also for problems and intervals without any free variable')
 
 
 def scenarios(seed, tier):
     n = 600 if tier == 'quick' else 3600
     rnd = random.Random(seed * 7919 + 4)
+    rnd2 = random.Random(seed * 7919 + 4 + 500009)      # own stream for the additions (the portfolios drawn from rnd stay what they were)
     for i in range(n):
         s = gen.gen_portfolio(random.Random(rnd.getrandbits(48)), tmax=12 if tier == 'quick' else 20,
                               kinds=['simple', 'contract', 'transport', 'storage', 'storage2', 'multi', 'orderbook', 'orderbook',
                                      'scaled', 'structured', 'plant', 'ext_transport'])
         s['mode'] = 'split' if i % 3 == 2 else 'mono'
+        if s['mode'] == 'split':
+            s['refix_seed'] = rnd2.getrandbits(30)      # rolling re-optimisation of the split solution with whole intervals pinned
         if i % 5 == 1:
             s['robust_seed'] = rnd.getrandbits(30)      # additionally optimised with the robust target over perturbed price samples
         yield 'gen%d' % i, s
@@ -33,6 +43,13 @@ def scenarios(seed, tier):
     for i in range(n // 10):
         r1 = random.Random(rnd.getrandbits(48))
         yield 'slp%d' % i, {'_stream': 'slp', 'case': S.gen_straddle_case(r1) if i % 2 else S.gen_case(r1)}
+    # problems (and single intervals of split problems) in which every variable is pinned by its bounds and carries cash flows
+    from ..comp import fixedpf as F
+    for i in range(n // 8):
+        s = F.gen_case(random.Random(rnd2.getrandbits(48)), tmax=12 if tier == 'quick' else 20)
+        s['mode'] = 'split'
+        s['refix_seed'] = rnd2.getrandbits(30)
+        yield 'fixed%d' % i, s
 
 
 def run_case(scn, drv):
@@ -50,6 +67,7 @@ def run_case(scn, drv):
         for o in ('freq', 'periodicity', 'wacc'):
             if o in tgt or o in a.get('args', {}):
                 feats.append('opt:' + o)
+    rs = None
     try:
         rec = pf.setup_mono(scn)
     except Exception as e:
@@ -95,14 +113,32 @@ def run_case(scn, drv):
     if scn.get('mode') == 'split':
         try:
             # on the SAME portfolio / asset / grid objects that were just optimised monolithically
-            rs = pf.setup_split(scn, pf.split_interval(scn, rec['tg']), objects=(rec['portf'], rec['tg'], rec['prices']))
+            rs = pf.setup_split(scn, scn.get('split_interval') or pf.split_interval(scn, rec['tg']), objects=(rec['portf'], rec['tg'], rec['prices']))
             pf.solve_rec(rs)
             feats.append('split')
             r['evaluated'] += 1
             if not isinstance(rs['res'], str):
                 r['violations'] += pf.orc_value_accounting(rs, 'split', pf.asset_blocks(rs))
+                if any(len(o.l) and bool(np.all(o.l == o.u)) for o in rs['op'].ops):
+                    feats.append('split-with-interval-without-free-variable')
         except Exception as e:
             feats.append('split-error:' + impl.err_class(e))
+        # rolling re-optimisation: the same portfolio set up again as a split problem, whole intervals pinned to the split
+        # solution through fix_time_window, prices of the other steps changed.  The result is an optimised portfolio like any other
+        if rs is not None and not isinstance(rs.get('res'), str) and rs.get('out') is not None and scn.get('refix_seed') is not None:
+            try:
+                from ..comp import fixedpf as F
+                rf = F.refix_split(rs, scn['refix_seed'])
+                if rf is not None:
+                    feats.extend(F.refix_features(rf))
+                    r['evaluated'] += 1
+                    if not isinstance(rf['res'], str):
+                        r['violations'] += pf.orc_value_accounting(rf, 'split-refixed', pf.asset_blocks(rf))
+            except Exception as e:
+                feats.append('refix-error:' + impl.err_class(e))
+    if scn.get('stream') == 'fixedpf':
+        from ..comp import fixedpf as F
+        feats.extend(F.features(scn, rec, rs))
     # the same asset objects in a second portfolio with another order (same sizes, other variable layout)
     if len(scn['assets']) >= 2 and not isinstance(rec.get('res'), str):
         try:
